@@ -713,6 +713,19 @@ func (r *run) checkTeardown(m *Model) {
 			return
 		}
 	}
+	if len(h.LeftSubs) > 0 && len(h.LeftAfterClients) == 0 && len(h.Script.Inproc) == 0 {
+		tag := ""
+		for _, l := range h.LeftSubs {
+			if hasEmptyLevel(l.Filter) {
+				tag = "/empty-level"
+			}
+		}
+		if r.m != nil && len(r.m.racedIDs()) > 0 {
+			tag += "/immediate-reconnect"
+		}
+		l := h.LeftSubs[0]
+		r.viol("C16", "subscriptions-removed", "C16/subscription-left-in-topic-tree"+tag, "every connection has ended and its teardown has finished, but the topic tree still holds %d subscriber(s) for topic %q (filter %q of the script): the subscription of a dead connection keeps receiving; all leftovers: %v", l.N, l.Topic, l.Filter, h.LeftSubs)
+	}
 	if len(h.LeftAfterClients) > 0 && !h.Script.Knobs.CloseServer {
 		t := h.LeftAfterClients[0]
 		r.viol("C16", "goroutines-exit", "C16/leftover-after-clients-gone/"+siteOf(t.Name)+"/"+t.Wait, "every client connection has ended and the broker is quiescent, but %d library goroutine(s) remain: %s; held locks: %v", len(h.LeftAfterClients), simrt.FormatTasks(h.LeftAfterClients), h.HeldAtEnd)
